@@ -32,7 +32,7 @@ ASSUMPTIONS = ['pandas: boolean-mask selection keeps the rows whose mask is True
                'member spelled `pd.Series([], dtype=float)` (RangeIndex; probed: stitches like the DatetimeIndex-empty one that IS generated); a bound list that is neither non-decreasing '
                'nor non-increasing (df_unslice raises ValueError through `_is_non_decreasing` since e2719c8, the model reverses - outside the quantifier "increasing or decreasing"). '
                'ONE series with ONE bound is generated (stitch-*, roundtrip-* with m = 1) and proved (stitch_single_eq / _iff)',
-               'bound lists with an UNBOUNDED end (round k4): a None as the last upper / first lower bound is modelled (directionO / normaliseO / stitchO / unsliceO) and generated (stitch-*+open-end, roundtrip-open-end*); an INNER None raises TypeError in code and model; [None, d] (two bounds, does not spell a direction) and None beside times of day are not generated. Theorem unslice_restitch_open covers the ub-only spelling with the None last; the other open spellings are sampled and #guard-evaluated']
+               'bound lists with an UNBOUNDED end (round k4): a None as the last upper / first lower bound is modelled (directionO / normaliseO / stitchO / unsliceO) and generated (stitch-*+open-end, roundtrip-open-end*); an INNER None raises TypeError in code and model; [None, d] (two bounds, does not spell a direction) and None beside times of day are not generated. Theorems unslice_restitch_open / _open_decreasing cover the ub-only spellings [.., None] and [None, ..]; None in lower-bound lists / both lists is sampled']
 
 D0 = datetime.datetime(2020, 1, 1)
 H = datetime.timedelta(hours=1)
